@@ -147,16 +147,46 @@ def exponent_alphabet(ctx):
                     'VAL no longer parses with grammar.numeric_literal',
                     sdbl.file, sdbl.line)
     readers = []
+
+    def float_sites(fnode, module, depth=0):
+        """(converter names, preprocessing calls) of every text->float
+        conversion in fnode, following calls to repository helpers."""
+        conv, pre = set(), []
+        for c in ast.walk(fnode):
+            if not isinstance(c, ast.Call):
+                continue
+            d = dotted(c.func)
+            if d in ('float', 'int'):
+                conv.add(d)
+            elif isinstance(c.func, ast.Attribute) and \
+                    c.func.attr in ('replace', 'translate', 'lower',
+                                    'upper'):
+                pre.append(unparse(c)[:80])
+            elif isinstance(c.func, ast.Name) and depth < 3:
+                tgt = None
+                g = module.functions.get(d)
+                if g is not None and g.cls is None and g.parent is None:
+                    tgt = (g, module)
+                else:
+                    imp = module.imports.get(d)
+                    if imp and imp[0] == 'attr' and \
+                            imp[1] in repo.modules:
+                        m2 = repo.modules[imp[1]]
+                        g = m2.functions.get(imp[2])
+                        if g is not None and g.cls is None:
+                            tgt = (g, m2)
+                if tgt is not None:
+                    c2, p2 = float_sites(tgt[0].node, tgt[1], depth + 1)
+                    conv |= c2
+                    pre += p2
+        return conv, pre
     for mod, qn in (('qvm.machine', 'DataDevice._exec_read'),
                     ('qvm.machine', 'TerminalDevice._exec_input')):
         f = repo.func(mod, qn)
-        conv = {dotted(c.func) for c in ast.walk(f.node)
-                if isinstance(c, ast.Call) and dotted(c.func) in
-                ('float', 'int')}
-        pre = [unparse(c)[:50] for c in ast.walk(f.node)
-               if isinstance(c, ast.Call) and
-               isinstance(c.func, ast.Attribute) and
-               c.func.attr in ('replace', 'translate', 'lower', 'upper')]
+        conv, pre = float_sites(f.node, f.module)
+        if 'float' not in conv:
+            raise AnalysisError(f'anchor vanished: no text->float '
+                                f'conversion found in {qn} or its helpers')
         readers.append((f, qn, conv, pre))
     for mk in sorted(markers):
         construct = f'{fn.file}:format_number:marker[{mk}]'
